@@ -1,0 +1,61 @@
+//go:build verif
+
+package basepeerleecher
+
+// Machine-checked contracts for /verif (read as text by the VC generator; no code).
+//
+// Ghost model of the callbacks: suspended / isdone are what Suspend() / Done() report,
+// nreq counts RequestChunks calls and lastChunks is the maxChunks of the latest one.
+//@ ghost suspended bool
+//@ ghost isdone bool
+//@ ghost nreq int
+//@ ghost lastChunks int
+//@ ghost nprocessed int
+//@ const Big = 1152921504606846976
+//@
+//@ funcfield EpochDownloaderCallbacks.Suspend
+//@   ensures result == suspended
+//@ funcfield EpochDownloaderCallbacks.Done
+//@   ensures result == isdone
+//@ funcfield EpochDownloaderCallbacks.RequestChunks
+//@   modifies nreq, lastChunks
+//@   ghost nreq = old(nreq) + 1
+//@   ghost lastChunks = maxChunks
+//@ funcfield EpochDownloaderCallbacks.IsProcessed
+//@   ensures true
+//@
+//@ inv BasePeerLeecher flow(d):
+//@   d != nil && 0 <= d.totalProcessed && d.totalProcessed <= Big && 0 <= d.totalRequested &&
+//@   0 <= d.cfg.ParallelChunksDownload && d.cfg.ParallelChunksDownload <= 4294967295 &&
+//@   d.totalRequested <= d.totalProcessed + d.cfg.ParallelChunksDownload
+//@
+//@ func (*BasePeerLeecher).tryToSync
+//@   requires flow(d) && d.totalProcessed + d.cfg.ParallelChunksDownload - d.totalRequested <= 4294967295
+//@   modifies d.totalRequested, nreq, lastChunks
+//@   ensures  [window] flow(d)
+//@   ensures  [suspended] suspended ==> nreq == old(nreq) && d.totalRequested == old(d.totalRequested)
+//@   ensures  [request] !suspended && old(d.totalRequested) < d.totalProcessed + d.cfg.ParallelChunksDownload ==> nreq == old(nreq) + 1 && lastChunks == d.totalProcessed + d.cfg.ParallelChunksDownload - old(d.totalRequested) && d.totalRequested == d.totalProcessed + d.cfg.ParallelChunksDownload
+//@   ensures  [full] !(old(d.totalRequested) < d.totalProcessed + d.cfg.ParallelChunksDownload) ==> nreq == old(nreq) && d.totalRequested == old(d.totalRequested)
+//@
+//@ func (*BasePeerLeecher).Terminate
+//@   requires d != nil
+//@   modifies d.done
+//@   ensures  d.done
+//@
+//@ func (*BasePeerLeecher).sweepProcessedChunks
+//@   requires flow(d) && d.totalProcessed + len(d.processingChunks) <= Big
+//@   modifies d.totalProcessed
+//@   ensures  d.totalProcessed - old(d.totalProcessed) == len(d.processingChunks) - len(result)
+//@   ensures  len(result) <= len(d.processingChunks) && d.totalProcessed >= old(d.totalProcessed)
+//@   loop 1 modifies notProcessed[*]
+//@   loop 1 invariant arrof(notProcessed) == arrof(atentry(notProcessed)) || arrof(notProcessed) >= _loopalloc
+//@   loop 1 invariant 0 <= _k && _k <= len(d.processingChunks)
+//@   loop 1 invariant d.totalProcessed == old(d.totalProcessed) + _k - len(notProcessed) && len(notProcessed) <= _k
+//@
+//@ func (*BasePeerLeecher).routine
+//@   requires flow(d) && d.totalProcessed + len(d.processingChunks) <= Big
+//@   requires d.totalProcessed + len(d.processingChunks) + d.cfg.ParallelChunksDownload - d.totalRequested <= 4294967295
+//@   modifies d.done, d.processingChunks, d.totalProcessed, d.totalRequested, nreq, lastChunks
+//@   ensures  [done] isdone ==> d.done && nreq == old(nreq)
+//@   ensures  [window] flow(d)
+//@   ensures  [suspended] suspended ==> nreq == old(nreq)
